@@ -160,3 +160,97 @@ PLANS["C02"] = {
         ["exactness of 'some instant' is limited to single-owner signals; signals share one snapshot, so owners contend"]),
     "floor": floor_counters(c02_nontrivial_brackets=50, c02_nested_brackets=1),
 }
+
+# ------------------------------------------------------------------------------------------- C06 / C07 / C08
+
+
+def chan(name, mode, n, seed, **kw):
+    return native(name, ["w_channel", "--mode", mode, "--histories", n, "--seed", seed], **kw)
+
+
+def c06_steps(tier, seed):
+    q = tier == "quick"
+    st = [
+        chan("chan-random", "random", 2500 if q else 150000, seed),
+        chan("chan-nest", "nest", 6000 if q else 100000, seed),
+        chan("chan-park", "park", 30 if q else 1500, seed),
+        chan("chan-signal", "signal", 1500 if q else 100000, seed + 7),
+    ]
+    if not q:
+        st += [miri("chan-miri-%d" % sh, "m_channel", ["--shape", sh + 4 * seed], 96, timeout=1500) for sh in range(0, 8)]
+    return st
+
+
+CHAN_RULE = ("cases = short channel histories on a fresh Channel (1-4 producers x 3-10 sends, 1-3 consumers, optional nested "
+             "operation batch injected at a CH_* failpoint, optional real-signal sender whose action sends on the same channel, "
+             "threads parked inside send/recv holding indices), every history closed by a final drain and the channel's drop and "
+             "checked offline against the bad patterns (invented / duplicate / FIFO order / empty-although-nonempty / "
+             "unjustified discard / lost / drop count / cell section overlap); non-trivial = history with overlapping operations, "
+             "nested operations or a discarded send; distinct = distinct fingerprints of (thread, op, empty?) sequences in call order")
+
+PLANS["C06"] = {
+    "steps": c06_steps,
+    "evidence": assemble("exploration", CHAN_RULE,
+                         ["real-time order is observed on x86-TSO; definitely-before relations only (CALL/RET stamps from one SeqCst counter)"]),
+    "floor": floor_counters(discarded_sends=50, overlapping_op_pairs=100, nested_ops=50),
+}
+
+
+def c07_steps(tier, seed):
+    q = tier == "quick"
+    st = [
+        miri("chan-miri-a", "m_channel", ["--shape", 2 * seed], 16 if q else 768, timeout=400 if q else 3000),
+        miri("chan-miri-b", "m_channel", ["--shape", 2 * seed + 1], 16 if q else 768, timeout=400 if q else 3000),
+        chan("chan-random", "random", 1500 if q else 100000, seed + 1),
+        chan("chan-signal", "signal", 1000 if q else 50000, seed + 2),
+        chan("chan-nest", "nest", 3000 if q else 100000, seed + 3),
+    ]
+    if not q:
+        st += [miri("chan-miri-%d" % sh, "m_channel", ["--shape", sh + 16 * seed], 256, timeout=3000) for sh in range(2, 14)]
+        st += [
+            asan("chan-asan-random", ["w_channel", "--mode", "random", "--histories", 20000, "--seed", seed + 4]),
+            asan("chan-asan-signal", ["w_channel", "--mode", "signal", "--histories", 10000, "--seed", seed + 5]),
+        ]
+    return st
+
+
+PLANS["C07"] = {
+    "steps": c07_steps,
+    "evidence": assemble(
+        "exploration",
+        "Miri: one channel history per seed (2-3 producers, 1-2 consumers, boxed payloads, one nested batch at a failpoint), no "
+        "global stamps so that the monitor adds no happens-before; Miri's vector-clock race detector judges the UnsafeCell accesses "
+        "under the declared orderings, its leak/double-free checks the payloads; thread-local assertions check drops==1. Native: "
+        + CHAN_RULE,
+        ["Miri samples interleavings and reads-from choices (its weak-memory emulation is incomplete); seeds listed in coverage.miri"]),
+    "floor": floor_counters(cell_sections_checked=1000),
+}
+
+
+def c08_steps(tier, seed):
+    q = tier == "quick"
+    st = [
+        chan("chan-nest", "nest", 6000 if q else 200000, seed, ),
+        chan("chan-park", "park", 60 if q else 3000, seed),
+        chan("chan-signal", "signal", 2500 if q else 100000, seed + 11),
+        chan("chan-random", "random", 1000 if q else 50000, seed + 12),
+    ]
+    if not q:
+        st += [miri("chan-miri-%d" % sh, "m_channel", ["--shape", sh + 8 * seed], 128, timeout=2000) for sh in range(0, 8)]
+    return st
+
+
+PLANS["C08"] = {
+    "steps": c08_steps,
+    "evidence": assemble(
+        "fault_enumeration",
+        "injection points = (channel failpoint site x occurrence 1..4 x nested batch kind {send, recv, 5 sends, 5 recvs, send+recv, "
+        "recv+send, 6 sends} x prefill 0..5 x shape) run as a nested operation on the same thread (panics caught, CAS-loop "
+        "iterations counted against loop executions) + 1..5 threads parked inside send/recv each holding an index while a free "
+        "thread must finish every loop in one iteration + real signals whose action sends, nested at arbitrary instructions; "
+        "distinct = distinct history fingerprints / (k, where parked, prefill) tuples",
+        ["spurious weak-CAS failures do not exist on x86: they are covered only by the Miri runs of the thorough tier",
+         "instruction boundaries = the 8 hook sites deterministically, arbitrary instructions statistically (real signals)"],
+        exhaustive=lambda tier: False),
+    "floor": floor_counters(nested_batches_run=100, park_checks=100),
+}
